@@ -36,7 +36,7 @@ EXPLANATION = (
     "indexing in the Substructure coordinate view, and validation-before-mutation in add_atom."
 )
 ASSUMPTIONS = ["numpy.append / numpy.delete along axis 0 add / remove exactly the addressed row"]
-FLOORS = {"C05.R8": 1, "C05.R7": 2, "C05.R1": 8, "C05.R2": 1, "C05.R3": 1, "C05.R4": 5, "C05.R5": 1, "C05.R6": 1}
+FLOORS = {"C05.R9": 3, "C05.R8": 1, "C05.R7": 2, "C05.R1": 8, "C05.R2": 1, "C05.R3": 1, "C05.R4": 5, "C05.R5": 1, "C05.R6": 1}
 
 CHAIN = {
     "Promolecule": "molli.chem.atom:Promolecule",
@@ -76,6 +76,25 @@ def run(chk):
     chk.call(r6_validate_first, chk, cls)
     chk.call(r7_sibling_resolvers, chk, cls)
     chk.call(r8_membership, chk, cls)
+    chk.call(r9_one_shot_arguments, chk)
+
+
+def r9_one_shot_arguments(chk):
+    """A parameter declared Iterable / Iterator / Generator may be a generator: it can be walked once.  An editing method that
+    walks it twice (`self._bonds.extend(bonds)` and then `for b in bonds: b.parent = self`) does its second step for nothing
+    when a generator is passed: the bonds are in the table, parents unset and their atoms never adopted."""
+    from ..oneshot import consumptions
+
+    mods = {"molli/chem/atom.py", "molli/chem/bond.py", "molli/chem/geometry.py", "molli/chem/structure.py", "molli/chem/molecule.py"}
+    for f in chk.prog.functions():
+        if f.module.relpath not in mods:
+            continue
+        for p, (k, site) in consumptions(f.node).items():
+            chk.analysed(f)
+            chk.decide(k <= 1, "C05.R9", f"{f.key}:one-shot-argument:{p}", f.where(site) if site is not None else f.where(),
+                       f"`{p}` (declared one-shot iterable) is walked {k} time(s)",
+                       f"`{p}` is declared a one-shot iterable but {f.qualname} walks it {k} times (second walk here): with a generator argument the second walk sees "
+                       f"nothing - elements are inserted without the bookkeeping the second loop does (parent, adopted atoms)")
 
 
 def _super_calls(fn, name):
@@ -433,6 +452,25 @@ def _type_cases(prog, f):
     """ordered class names of the `case K():` arms of the match on the first parameter"""
     p = f.params()[1]
     ms = [m for m in walk_no_nested(f.node) if isinstance(m, ast.Match) and norm(m.subject) == p]
+    if not ms:
+        # guard form: `if isinstance(p, K): ... return / raise` (one or several), then one closing `return E` for everything else
+        import types
+
+        from ..canon import _ends
+
+        out = []
+        body = [s for s in f.node.body if not (isinstance(s, ast.Expr) and isinstance(s.value, ast.Constant))]
+        for s in body:
+            t = s.test if isinstance(s, ast.If) else None
+            if t is not None and isinstance(t, ast.Call) and call_name(t) == "isinstance" and len(t.args) == 2 and norm(t.args[0]) == p and not s.orelse and _ends(s.body, (ast.Return, ast.Raise)):
+                ks = t.args[1].elts if isinstance(t.args[1], ast.Tuple) else [t.args[1]]
+                for k in ks:
+                    out.append((norm(k), types.SimpleNamespace(body=s.body, pattern=None)))
+            elif isinstance(s, ast.Return) and s is body[-1] and out:
+                out.append(("*", types.SimpleNamespace(body=[s], pattern=None)))
+            else:
+                raise AnalysisError(f"{f.key}: expected one `match {p}` or a run of isinstance guards closed by one return")
+        return out
     if len(ms) != 1:
         raise AnalysisError(f"{f.key}: expected one `match {p}`")
     out = []
@@ -440,7 +478,11 @@ def _type_cases(prog, f):
         pt = c.pattern
         if isinstance(pt, ast.MatchAs) and pt.pattern is not None:
             pt = pt.pattern
-        if isinstance(pt, ast.MatchClass):
+        if isinstance(pt, ast.MatchAs) and pt.pattern is None and c.guard is None:
+            # `case _:` - an arm that only raises rejects, an arm that returns resolves "everything else"
+            if not (len(c.body) == 1 and isinstance(c.body[0], ast.Raise)):
+                out.append(("*", c))
+        elif isinstance(pt, ast.MatchClass):
             out.append((norm(pt.cls), c))
         elif isinstance(pt, ast.MatchOr):
             for q in pt.patterns:
@@ -473,8 +515,22 @@ def r7_sibling_resolvers(chk, cls):
         chk.decide(not shadowed, "C05.R7", f"{f.key}:no-shadowed-type-case", f.where(), f"cases {names}",
                    f"`case {shadowed[0] if shadowed else ''}()` comes after `case {supers.get(shadowed[0]) if shadowed else ''}()`, which already captures it: the later arm is dead")
     sa, si = [n for n, _ in ca], [n for n, _ in ci_]
+    # a closing arm that returns the index of `get_atom(<the designator>)` resolves everything not taken before it exactly as
+    # get_atom does - but only what reaches it: an earlier `int` guard still takes an Element (IntEnum) as a row number
+    delegates = False
+    if "*" in si:
+        p_ = gi.params()[1]
+        b_ = dict(ci_)["*"].body
+        chk.require(len(b_) == 1 and isinstance(b_[0], ast.Return) and b_[0].value is not None, f"{gi.key}: the closing arm is not a single return")
+        rv = b_[0].value
+        delegates = isinstance(rv, ast.Call) and norm(rv.func) in ("self._atoms.index", "self.atoms.index") and len(rv.args) == 1 \
+            and isinstance(rv.args[0], ast.Call) and norm(rv.args[0].func) == "self.get_atom" and [norm(a) for a in rv.args[0].args] == [p_]
+        chk.require(delegates, f"{gi.key}: the closing return `{short(rv, 50)}` is not the index of get_atom({p_})")
+        si = si[: si.index("*")]
     missing = [n for n in sa if n not in si]
     captured = [n for n in missing if supers.get(n) in si]
+    if delegates and not captured:
+        missing = []
     key = f"{gi.key}:same-type-cases-as-get_atom"
     if captured:
         n = captured[0]
